@@ -157,6 +157,9 @@ def run(ctx):
             if 'straggler' in v['env'].get('LBZIP2_VERIF_SCHED', ''):
                 v['env'].pop('LBZIP2_VERIF_SCHED')
         cs.append(dict(name='synth:maxlen-groups', data=data, variants=vs))
+    for i in range(3 if q else 40):
+        name, data, plain = dcorpus.concat_levels(rnd, lb)
+        cs.append(dict(name=name, data=data, variants=mkvariants(rnd, nvar // 2, False, len(data), len(plain))))
     for i in range(nbig):
         d = gen.make(rnd, rnd.choice(['text', 'runs', 'uniform', 'concat']), rnd.choice([400000, 1200000]), 1)
         data = core.run([lb, '-%d' % rnd.choice([1, 2, 9]), '-n', '4'], stdin=d, timeout=120).out
